@@ -131,6 +131,14 @@ def run(ck):
     for q in heavy_q:
         for t in heavy_t:
             cases.append({'key': f'{q}|{t}', 'q': q, 't': t, 'thiele': False, 'filter': False, 'scope': False, 'rs': rnd.randrange(1 << 30)})
+    # ring closures of the query that land on heavy elements (the closure word has its own element bits); ring-size primitives on the
+    # first query atom against atoms that sit in rings of several sizes
+    for q in ['[Pt]1NCCN1', 'N1CCN[Pt]1', '[A]1NCCN1', '[Sn,Pb]1CCCC1', '[Hg]1CCCC1', 'C1CC[Au]C1', '[W]1OCCO1', '[Bi]1CCCC1', '[Pd]1NCCN1', '[M]1NCCN1']:
+        for t in ['Cl[Pt]1(Cl)NCCN1', 'C1CC[Pb]C1.C1CC[Sn]C1', 'C1CC[Hg]C1', 'C1CC[Au]C1', 'O1CCO[W]1', 'C1CC[Bi]C1', 'Cl[Pd]1(Cl)NCCN1', 'C1CC[Te]C1']:
+            cases.append({'key': f'{q}|{t}', 'q': q, 't': t, 'thiele': False, 'filter': False, 'scope': False, 'rs': rnd.randrange(1 << 30)})
+    for q in ['[C;r5]=C', 'C=[C;r5]', '[N;r4]C=O', '[C;r6]C', '[C;r3,r4]', '[C;r5][C;r6]', '[C;r6][C;r5]', '[C;r3]1CC1', '[A;r5]~[A;r6]']:
+        for t in ['C1=Cc2ccccc2C1', 'O=C1CC2N1CCS2', 'C1CC12CCCC2', 'C1CC2CCC1C2', 'C1CCC2CCCC2C1', 'c1ccc2c(c1)CCC2', 'C1CC2CC1CCC2']:
+            cases.append({'key': f'{q}|{t}', 'q': q, 't': t, 'thiele': False, 'filter': False, 'scope': False, 'rs': rnd.randrange(1 << 30)})
     # scoped searches on multi-component targets, also with multi-component queries (one scope mask per component)
     for q in ['CC', 'C.N', 'C.N.S', 'CC.CC', 'CO.CN', '[C;D1]', 'C~[A]', 'C.C']:
         for t in ['CCO.CCN', 'CCO.CCN.CCS', 'CC.CC.CC', 'CCOCC.NCCN', 'OCCO.OCCO', 'CCN.CCN.CCO.CCS']:
